@@ -114,6 +114,17 @@ DISCHARGE = [
 ]
 
 
+def norm_guard(g):
+    """one spelling for equivalent unsigned comparisons with zero: `0 < x`, `0 != x`, `x != 0`, `1 <= x`"""
+    m = re.match(r"^0_(\w+) (?:<|!=) (.+)$", g)
+    if m:
+        return "%s != 0_%s" % (m.group(2), m.group(1))
+    m = re.match(r"^1_(\w+) <= (.+)$", g)
+    if m:
+        return "%s != 0_%s" % (m.group(2), m.group(1))
+    return g
+
+
 def takes_exactly_n(f, name):
     """function `name` returns Ok(&buf[i..i + n]) (n its second parameter): a slice of exactly n bytes"""
     b = f.bodies.get(name)
@@ -175,8 +186,13 @@ def auto_discharge(f, s):
                         return True, "%s + 1 where %s < %s holds" % (lhs, l, r)
             if ar[1] == "SubWithOverflow":
                 for (op, l, r, _) in fs:
-                    if l == rhs and r == lhs:
+                    if op in ("lt", "le") and l == rhs and r == lhs:
                         return True, "%s - %s where %s %s %s holds" % (lhs, rhs, l, "<" if op == "lt" else "<=", r)
+                if peel(ar[3])[0] == "const" and peel(ar[3])[2] == 1:
+                    # x - 1 where x is known to be non-zero
+                    for (op, l, r, _) in fs:
+                        if (op == "lt" and re.match(r"^0_\w+$", l) and r == lhs) or (op == "ne" and {l, r} >= {lhs} and any(re.match(r"^0_\w+$", z) for z in (l, r))):
+                            return True, "%s - 1 where %s is non-zero" % (lhs, lhs)
         return False, ""
     c = b.calls[bb]
     if s["what"] == "unwrap":
@@ -240,7 +256,7 @@ def rule_panic(R):
                  % (s["what"], s["detail"][:100], s["fn"], gs[:4]), where=s["span"])
             continue
         need, reason = entry
-        missing = [g for g in need if not any(g in have for have in gs)]
+        missing = [g for g in need if not any(norm_guard(g) in norm_guard(have) for have in gs)]
         R.ob("panic/%s" % s["key"], not missing,
              "%s in %s is safe because: %s%s" % (s["what"], s["fn"], reason,
                                                  "" if not missing else " — but the guard `%s` no longer dominates it (guards now: %s)" % (missing[0], gs[:4])),
